@@ -25,3 +25,22 @@ pub open spec fn ser_bits(s: Seq<ScriptBit>) -> Seq<u8>
 }
 
 pub open spec fn ser_script(s: Script) -> Seq<u8> { ser_bits(s.0@) }
+
+// serialisation of a script with every OP_CODESEPARATOR (0xab = 171) removed, at every nesting level
+pub open spec fn ser_bit_nocs(b: ScriptBit) -> Seq<u8>
+    decreases b
+{
+    match b {
+        ScriptBit::OpCode(code) => if code is OP_CODESEPARATOR { Seq::<u8>::empty() } else { seq![code as u8] },
+        ScriptBit::If { code, pass, fail } => seq![code as u8] + ser_bits_nocs(pass@) + (match fail {
+            Some(f) => seq![103u8] + ser_bits_nocs(f@),
+            None => seq![],
+        }) + seq![104u8],
+        _ => ser_bit(b),
+    }
+}
+pub open spec fn ser_bits_nocs(s: Seq<ScriptBit>) -> Seq<u8>
+    decreases s
+{
+    if s.len() == 0 { seq![] } else { ser_bits_nocs(s.drop_last()) + ser_bit_nocs(s.last()) }
+}
